@@ -176,7 +176,7 @@ def model_lines(case):
               for l in spec["layers"]]
     lines.append([A("init"), case.get("structure", "package") == "zip", parts, layers, spec["default"],
                   [[n, 1000 + sd] for n, sd in sorted(spec["images"].items())],
-                  [[n, 2000 + sd] for n, sd in sorted(spec["data"].items())]])
+                  [[n, 2000 + sd] for n, sd in sorted(spec["data"].items())], ids.glyph(EMPTY_GLYPH)])
     nsave = 0
     for op in case["ops"]:
         k = op[0]
@@ -522,6 +522,11 @@ class Impl(object):
 
         def raw(tk):
             return None if tk is None else xc.raw_time(tk, z)
+
+        def keepable(rel):
+            """can this file be rewritten without changing its mtime?  In a zip archive only when the harness set that
+            time (the times a save leaves are the wall clock's with two-second granularity: not reproducible)"""
+            return rel in files and (not z or files[rel][1][0] == 2001)
         # bookkeeping files (contents.plist, layercontents.plist, layerinfo.plist) get a time of their own
         self.ntouch = getattr(self, "ntouch", 0) + 1
         craw = xc.raw_time(5000 + self.ntouch, z)
@@ -531,10 +536,12 @@ class Impl(object):
             rel = PART_FILE[part]
             if action == "write":
                 b = canon.part(part, v)
-                if b is None or (t is None and rel not in files):
+                if b is None or (t is None and not keepable(rel)):
                     done = False
                 else:
                     xc.x_file(files, rel, "write", b, raw(t))
+                    if part != "lib":
+                        self.check_canonical(b, ("P", part, self.ids.part(part, v, register=False)))
             elif rel not in files:
                 done = False
             else:
@@ -542,17 +549,20 @@ class Impl(object):
         elif k == "xglyph":
             ln, gn, action, g = op[1], op[2], op[3], op[4]
             d = xc.layer_dir(files, ln)
-            if d is None or (t is None and (action != "write" or gn not in xc.glyph_contents(files, d))):
+            if d is None or (t is None and (action != "write" or gn not in xc.glyph_contents(files, d)
+                                            or not keepable(d + "/" + xc.glyph_contents(files, d)[gn]))):
                 done = False
             else:
                 done = xc.x_glyph(files, canon, ln, gn, action, g, raw(t), craw)
+                if done and action == "write":
+                    self.check_canonical(canon.glif(gn, g), ("G", gn, self.ids.glyph(g, register=False)))
         elif k == "xlinfo":
             done = xc.x_layerinfo(files, canon, op[1], op[2], op[3], craw)
         elif k in ("ximg", "xdat"):
             n, action, sd = op[1], op[2], op[3]
             rel = ("images/" if k == "ximg" else "data/") + n
             if action == "write":
-                if t is None and rel not in files:
+                if t is None and not keepable(rel):
                     done = False
                 else:
                     xc.x_file(files, rel, "write", fg.png_bytes(sd) if k == "ximg" else fg.data_bytes(sd), raw(t))
@@ -1173,7 +1183,7 @@ def run_impl(case):
     try:
         impl = Impl(case, tmpd)
         oracle = Oracle(impl)
-        outs = []
+        outs = [Atom("ok")]         # the model's init line
         stats = {"structure." + case.get("structure", "package"): 1, "len": len(case["ops"])}
         tested_after_x = False
         x_pending = False
@@ -1233,6 +1243,21 @@ def run_impl(case):
                             oracle.add("usable", "%s/stale-content" % k, i, op, expected=repr(want), observed=repr(result))
                 if k == "save" and st != "ok":
                     oracle.add("usable", "save/%s" % st[4:], i, op, error=result)
+                if k == "save" and st == "ok":
+                    # a save keeps every glyph file the font lists and did not rewrite
+                    for ln in before["order"]:
+                        d0 = xc.layer_dir(files_before, ln)
+                        if d0 is None:
+                            continue
+                        c0 = xc.glyph_contents(files_before, d0)
+                        for gn in sorted(set(c0) & before["keys"][ln]):
+                            b1 = glyph_bytes(impl.files, ln, gn)
+                            if b1 is None:
+                                oracle.add("usable", "save/lost-glyph-file", i, op, layer=ln, glyph=gn)
+                                break
+                            if gn not in dirty_before["glyphs"].get(ln, set()) and b1 != files_before[d0 + "/" + c0[gn]][0]:
+                                oracle.add("usable", "save/changed-clean-glyph-file", i, op, layer=ln, glyph=gn)
+                                break
                 if k in ("test", "reloadpart", "acceptdel") and st != "ok":
                     oracle.add("usable", "%s/%s" % (k, st[4:]), i, op, error=result)
                 if k == "reload" and st != "ok" and not x_since_test:
